@@ -587,7 +587,9 @@ pub fn explore_first_use(rep: &mut Report, id: &str, bound: usize, thorough: boo
                                 return Err(format!("call {} (racing threads first, then the probe calls) differs from the sequential baseline", t));
                             }
                             if let Some(e) = expect.get(t).and_then(|e| e.as_ref()) {
-                                if e != bytes {
+                                if e != bytes && id == "C11" {
+                                    // "derived as specified ... on every thread" is C11's property; for C18 the oracle is
+                                    // the sequential baseline alone
                                     return Err(format!("call {} (racing threads first, then the probe calls) differs from the reference derivation", t));
                                 }
                             }
